@@ -37,7 +37,7 @@ MANIFEST = {
 
 def run(run):
     run.explanation = EXPLANATION
-    for r, n in (("C20.R1", 3), ("C20.R2", 3), ("C20.R3", 4), ("C20.R4", 4)):
+    for r, n in (("C20.R1", 3), ("C20.R2", 3), ("C20.R3", 4), ("C20.R4", 4), ("C20.R5", 1)):
         run.floor(r, n)
     project = run.project
     ev = sym.make_evaluator(project, COLL, [], inline_local=True, no_inline=("_scan_hdus", "_load", "descriptions", "images", "export_simple"))
@@ -45,6 +45,7 @@ def run(run):
     _r1_r2(run, ev)
     _r3(run, ev)
     _r4(run)
+    _r5_shape_agreement(run)
 
 
 def _leaves(t, conds=()):
@@ -247,6 +248,47 @@ def _r3(run, ev):
     memo.check_module(run, "C20.R3", COLL)
 
 
+CONVERSIONS = ("int", "float", "str", "os.fspath", "fspath")
+
+
+def _seq_view(t, X, conv=False):
+    """How the sequence term *t* relates to the sequence *X*: "same" = same items, same order, same multiplicity (through
+    list()/tuple(), an element-wise comprehension without a condition, map(), or -- for a scalar-or-list argument -- the
+    `[X] if isinstance(X, str) else X` wrap); "altered" = built from X in some other way (filtered, de-duplicated, sorted,
+    sliced, items rewritten); "absent" = does not depend on X.  With *conv*, items may go through int()/float()/str()."""
+    if t == X:
+        return "same"
+    if t[0] in ("list", "tuple") and len(t[1]) == 1 and t[1][0] == X:
+        return "same"                                   # [X]: a scalar wrapped into a one-element list
+    if t[0] == "call" and t[1][0] == "sym" and t[1][1] in ("list", "tuple") and len(t[2]) == 1 and not t[3]:
+        return _seq_view(t[2][0], X, conv)
+    if t[0] == "call" and t[1] == ("sym", "map") and len(t[2]) == 2 and not t[3]:
+        inner = _seq_view(t[2][1], X, conv)
+        if inner == "same" and not (conv and show(t[2][0]) in CONVERSIONS):
+            return "altered"
+        return inner
+    if t[0] == "op" and t[1] == "comp":
+        kind_, elt, it, cnd = t[2][:4]
+        inner = _seq_view(it, X, conv)
+        if inner != "same":
+            return inner
+        if cnd != sym.TRUE:
+            return "altered"
+        e = ("elem", it)
+        if elt == e:
+            return "same"
+        if elt[0] == "call" and len(elt[2]) == 1 and elt[2][0] == e and not elt[3] and show(elt[1]) in CONVERSIONS and (conv or show(elt[1]) in ("str", "os.fspath", "fspath")):
+            return "same"
+        return "altered"
+    if t[0] == "ite":
+        a, b = _seq_view(t[2], X, conv), _seq_view(t[3], X, conv)
+        if a == b:
+            return a
+        return "altered" if "altered" in (a, b) else ("same" if "absent" not in (a, b) else "altered")
+    return "altered" if X in _subterms(t) else "absent"
+
+
+
 def _r4(run):
     project = run.project
     # constructor stores
@@ -268,19 +310,54 @@ def _r4(run):
     if c:
         kw = dict(c[0].term[3])
         okl = all(kw.get(k) == ("attr", ("sym", "self"), k) for k in ("hdu_index", "wcs_key", "blankval"))
+        pths = c[0].term[2][0] if c[0].term[2] else kw.get("paths")
+        how = _seq_view(pths, ("sym", f.params()[1])) if pths is not None else "absent"
+        if how != "same":
+            run.violated("C20.R4", f, c[0].node, "load_paths hands the collection %s instead of the paths it was given, in order and with repeats: per-file hdu_index / wcs_key "
+                         "lists no longer pair up with the files" % show(pths)[:80], kind="paths-" + how)
     (run.holds if okl else run.violated)("C20.R4", f, c[0].node if c else None, "load_paths forwards the loader's hdu_index / wcs_key / blankval" if okl else
                                          "CollectionLoader.load_paths does not forward hdu_index, wcs_key and blankval to the collection", **({} if okl else {"kind": "loader-forward"}))
     # create_from_args: settings -> loader attributes
     f = project.fn(COLL + ".CollectionLoader.create_from_args")
     run.note_func(f)
-    r = sym.make_evaluator(project, COLL, []).run(f.node)
+    ev_l = sym.make_evaluator(project, COLL, [], inline_local=True)
+    ev_l.self_class = COLL + ".CollectionLoader"       # parsing helpers of the loader are part of the flow
+    r = ev_l.run(f.node)
     st = {}
     for e in r.events:
         if e.kind == "store" and e.term[1][0][0] == "attr" and e.term[1][0][2] in ("hdu_index", "wcs_key", "blankval"):
             st.setdefault(e.term[1][0][2], []).append(e.term[1][1])
     settings = ("sym", f.params()[1])
     okc = all(k in st and any(("attr", settings, k) in atoms_of(v) for v in st[k]) for k in ("hdu_index", "wcs_key", "blankval"))
-    (run.holds if okc else run.violated)("C20.R4", f, None, "command line: --hdu-index / --wcs-key / --blankval parsed into the loader" if okc else
+    # ... and unchanged: each stored value is the option text itself, its items split at commas (all of them, in order), or the
+    # first of them, up to int()/float() conversion
+    for k in ("hdu_index", "wcs_key"):
+        src = ("attr", settings, k)
+        split = ("call", ("attr", src, "split"), (("const", ","),), ())
+        for v in st.get(k, []):
+            leaves = [t for _c, t in _leaves(v)]
+            for t in leaves:
+                if t[0] == "call" and len(t[2]) == 1 and not t[3] and show(t[1]) in CONVERSIONS:
+                    t = t[2][0]
+                if t[0] in ("item", "sub") and _seq_view(t[1], split, conv=True) == "same":
+                    continue
+                if t == src or _seq_view(t, split, conv=True) == "same":
+                    continue
+                if src in _subterms(t):
+                    run.violated("C20.R4", f, None, "create_from_args rewrites the --%s items before storing them (%s): a list given on the command line no longer "
+                                 "selects, file by file, what the user wrote" % (k.replace("_", "-"), show(t)[:100]), kind="cli-option-rewritten", option=k)
+                    okc = None
+                    break
+            if okc is None:
+                break
+        if okc is None:
+            break
+    if okc is None:
+        okc_reported = True
+    else:
+        okc_reported = False
+    if not okc_reported:
+        (run.holds if okc else run.violated)("C20.R4", f, None, "command line: --hdu-index / --wcs-key / --blankval parsed into the loader" if okc else
                                          "create_from_args does not derive loader.%s from the parsed command-line settings" % [k for k in ("hdu_index", "wcs_key", "blankval") if k not in st],
                                          **({} if okc else {"kind": "cli-options"}))
     # load()
@@ -289,6 +366,12 @@ def _r4(run):
     r = sym.make_evaluator(project, COLL, []).run(f.node)
     st = {e.term[1][0][2]: e.term[1][1] for e in r.events if e.kind == "store" and e.term[1][0][0] == "attr"}
     okf = all(st.get(k) == ("sym", k) for k in ("hdu_index", "wcs_key", "blankval"))
+    lp = [e for e in r.events if e.kind == "call" and e.term[1][0] == "attr" and e.term[1][2] == "load_paths"]
+    if lp and lp[0].term[2]:
+        how = _seq_view(lp[0].term[2][0], ("sym", f.params()[0]))
+        if how != "same":
+            run.violated("C20.R4", f, lp[0].node, "load() hands the loader %s instead of the paths it was given, in order and with repeats: per-file hdu_index / wcs_key "
+                         "lists no longer pair up with the files" % show(lp[0].term[2][0])[:80], kind="paths-" + how)
     (run.holds if okf else run.violated)("C20.R4", f, None, "load(): options handed to the loader unchanged" if okf else
                                          "collection.load() drops or alters %s" % [k for k in ("hdu_index", "wcs_key", "blankval") if st.get(k) != ("sym", k)],
                                          **({} if okf else {"kind": "load-options"}))
@@ -352,3 +435,148 @@ def _r4(run):
                                  kind="cli-option-dropped")
                 else:
                     run.holds("C20.R4", g, viaL[0], "%s copies every declared selection option onto its loader" % g.name)
+
+
+# ---------------------------------------------------------------------------
+
+def _subterms(t, acc=None):
+    acc = [] if acc is None else acc
+    if isinstance(t, tuple):
+        if t and isinstance(t[0], str):
+            acc.append(t)
+        for x in t:
+            if isinstance(x, tuple):
+                _subterms(x, acc)
+    return acc
+
+
+def _comp_sources(t):
+    """Collections iterated by comprehensions inside *t*: [(it term, its zip parts or None)]."""
+    out = []
+    for x in _subterms(t):
+        if x[0] == "op" and x[1] == "comp":
+            it = x[2][2]
+            parts = it[2] if (it[0] == "call" and it[1] == ("sym", "zip")) else None
+            out.append((it, parts))
+    return out
+
+
+def _r5_shape_agreement(run):
+    """descriptions() and images() of one file describe the same array: when a cube is cut down to its celestial plane, the
+    shape announced by the description is the shape of the data handed out.  Both are terms over the same axis mask and the
+    same (padded) HDU shape; they are evaluated for every mask with two kept axes among 2..4 and a shape of distinct primes."""
+    import itertools
+    from sa.teval import teval, UNKNOWN
+    project = run.project
+    f = project.fn(COLL + ".SimpleFitsCollection._load")
+    run.note_func(f)
+    ev = sym.make_evaluator(project, COLL, [], inline_local=True, no_inline=("_scan_hdus",))
+    ev.self_class = COLL + ".SimpleFitsCollection"
+    r = ev.run(f.node)
+    descs = [e for e in r.events if e.kind == "call" and show(e.term[1]) == "ImageDescription"]
+    imgs = [e for e in r.events if e.kind == "call" and show(e.term[1]) == "Image.from_array"]
+    if len(descs) != 1 or len(imgs) != 1:
+        run.undecided("C20.R5", f, None, "_load does not build exactly one ImageDescription and one Image.from_array (%d, %d)" % (len(descs), len(imgs)), kind="load-shape")
+        return
+    dshape = dict(descs[0].term[3]).get("shape") or (descs[0].term[2][1] if len(descs[0].term[2]) > 1 else None)
+    data = imgs[0].term[2][0] if imgs[0].term[2] else dict(imgs[0].term[3]).get("array")
+    if dshape is None or data is None:
+        run.undecided("C20.R5", f, descs[0].node, "cannot find the description's shape / the image's data argument", kind="load-args")
+        return
+    # the mask: a collection iterated on both sides; the shape: its zip partner (description) = the reshape argument (image)
+    dsrc, isrc = _comp_sources(dshape), _comp_sources(data)
+    d_cols = {p for it, parts in dsrc for p in (parts or (it,))}
+    i_cols = {p for it, parts in isrc for p in (parts or (it,))}
+    masks = d_cols & i_cols
+    if len(masks) > 1:
+        # the mask may itself be computed by a comprehension: take the outermost common collection
+        big = max(masks, key=lambda t: len(repr(t)))
+        if all(m == big or m in _subterms(big) for m in masks):
+            masks = {big}
+    reshapes = [x for x in _subterms(data) if x[0] == "call" and x[1][0] == "attr" and x[1][2] == "reshape" and x[2]]
+    if not masks and not dsrc and not isrc:
+        # no cutting down on either side
+        run.holds("C20.R5", f, descs[0].node, "neither the description nor the image cuts the HDU shape down")
+        return
+    if len(masks) != 1 or len(reshapes) < 1:
+        if not isrc and dsrc or (isrc and not _comp_sources(dshape) and "sub" not in {x[0] for x in _subterms(dshape)}):
+            run.violated("C20.R5", f, descs[0].node, "only one of description / image is cut down to the celestial axes: the announced shape is not the shape of the data",
+                         kind="shape-one-sided")
+            return
+        if isrc and len(reshapes) >= 1:
+            # the image is cut by a mask, the description by something else (slice, literal): evaluate with the image's mask
+            masks = {p for it, parts in isrc for p in (parts or (it,))}
+            if len(masks) > 1:
+                big = max(masks, key=lambda t: len(repr(t)))
+                if all(m == big or m in _subterms(big) for m in masks):
+                    masks = {big}
+            if len(masks) != 1:
+                run.undecided("C20.R5", f, descs[0].node, "cannot identify the axis mask shared by description and image", kind="shape-mask")
+                return
+        else:
+            run.undecided("C20.R5", f, descs[0].node, "cannot identify the axis mask shared by description and image", kind="shape-mask")
+            return
+    K = next(iter(masks))
+    S = reshapes[0][2][0]
+    # force the "cut down" branch: every case distinction whose arms differ in containing the cut
+    def force(t, env):
+        for x in _subterms(t):
+            if x[0] == "ite":
+                a_cut = any(y[0] == "op" and y[1] == "comp" for y in _subterms(x[2])) or any(y[0] == "sub" and y[2][0] == "slice" for y in _subterms(x[2]))
+                b_cut = any(y[0] == "op" and y[1] == "comp" for y in _subterms(x[3])) or any(y[0] == "sub" and y[2][0] == "slice" for y in _subterms(x[3]))
+                if a_cut != b_cut:
+                    env[x[1]] = a_cut
+    bad = None
+    n = 0
+    unknown = None
+    for size in (2, 3, 4):
+        for keep in itertools.combinations(range(size), 2):
+            kvec = tuple(i in keep for i in range(size))
+            svec = (2, 3, 5, 7)[:size]
+            env = {K: kvec, S: svec}
+            if size > 2:
+                force(dshape, env)
+                force(data, env)
+            else:
+                for t in (dshape, data):
+                    for x in _subterms(t):
+                        if x[0] == "ite":
+                            a_cut = any(y[0] == "op" and y[1] == "comp" for y in _subterms(x[2])) or any(y[0] == "sub" and y[2][0] == "slice" for y in _subterms(x[2]))
+                            b_cut = any(y[0] == "op" and y[1] == "comp" for y in _subterms(x[3])) or any(y[0] == "sub" and y[2][0] == "slice" for y in _subterms(x[3]))
+                            if a_cut != b_cut:
+                                env[x[1]] = not a_cut      # a plain 2-D HDU is not cut
+            got = teval(dshape, env)
+            # the data: reshape(S)[index] -- the index keeps an axis where it is a full slice
+            arr = data
+            while arr[0] == "ite":
+                c = teval(arr[1], env)
+                if c is UNKNOWN:
+                    break
+                arr = arr[2] if c else arr[3]
+            if arr[0] == "sub":
+                idx = teval(arr[2], env)
+                if idx is UNKNOWN or not isinstance(idx, tuple) or len(idx) != size:
+                    unknown = "the index applied to the data (%s)" % show(arr[2])[:80]
+                    continue
+                want = tuple(sv for sv, i in zip(svec, idx) if isinstance(i, slice))
+            elif arr[0] == "call" and arr[1][0] == "attr" and arr[1][2] == "reshape":
+                want = svec
+            else:
+                unknown = "the data handed to Image.from_array (%s)" % show(arr)[:80]
+                continue
+            if got is UNKNOWN:
+                unknown = "the description's shape (%s)" % show(dshape)[:80]
+                continue
+            n += 1
+            if tuple(got) != tuple(want):
+                bad = (kvec, svec, tuple(got), tuple(want))
+                break
+        if bad:
+            break
+    if bad:
+        run.violated("C20.R5", f, descs[0].node, "for an HDU of shape %s whose celestial axes are %s the description announces shape %s but the image has shape %s: "
+                     "descriptions() and images() disagree about the same file" % (bad[1], bad[0], bad[2], bad[3]), kind="shape-disagrees", case=repr(bad))
+    elif unknown or n == 0:
+        run.undecided("C20.R5", f, descs[0].node, "cannot evaluate %s" % (unknown or "any case"), kind="shape-eval")
+    else:
+        run.holds("C20.R5", f, descs[0].node, "description shape == image shape for every axis mask with two kept axes among 2..4 (%d cases)" % n, cases=n)
